@@ -67,3 +67,20 @@ Require Import GM.proofs.ParseFinal.
 Theorem C01_convert_model_render_total : forall c src t, bytes_ok src -> ParseTree src = Ok t -> exists o, ConvertModel c src = Ok o.
 Proof. exact ConvertModel_render_total_all. Qed.
 Print Assumptions C01_convert_model_render_total.
+
+(* THE statement of C01 for the Convert model of the default parser: for EVERY source and EVERY
+   renderer configuration the model - block phase, inline phase, renderer - returns an output; no
+   modelled function panics, no fuel runs out (the fuel formulas of the model are therefore
+   irrelevant: the loops they bound terminate) *)
+Require Import GM.proofs.ParseInlineTotal.
+Theorem C01_inline_phase_total : forall refs src lines, bytes_ok src -> lines_ok src lines ->
+  exists ts, InlineChildren refs src lines = Ok ts.
+Proof. exact InlineChildren_total. Qed.
+Print Assumptions C01_inline_phase_total.
+Theorem C01_parser_model_total : forall src, bytes_ok src -> exists t, ParseTree src = Ok t.
+Proof. exact ParseTree_total_all. Qed.
+Print Assumptions C01_parser_model_total.
+Theorem C01_convert_model_total : forall c src, bytes_ok src -> exists o, ConvertModel c src = Ok o.
+Proof. exact ConvertModel_total_all. Qed.
+Print Assumptions C01_convert_model_total.
+(* bytes_ok says that every element of the source is a byte (< 256): true of every Go []byte *)
